@@ -78,17 +78,17 @@ def argminR (best : Circ α) : List (Circ α) → Circ α
   | [] => best
   | c :: rest => if c.r2 < best.r2 then argminR c rest else argminR best rest
 
+/-- `CANDIDATS`: the circles on two of the three points that contain the third one strictly, in the order `C12, C23, C13` -/
+def cands3 (p1 p2 p3 : Pt α) : List (Circ α) :=
+  ((if inside (circle2 p1 p2) p3 then [circle2 p1 p2] else []) ++ (if inside (circle2 p2 p3) p1 then [circle2 p2 p3] else []))
+    ++ (if inside (circle2 p1 p3) p2 then [circle2 p1 p3] else [])
+
 /-- `__circle(p1, p2, p3)` -/
 def circle3 (p1 p2 p3 : Pt α) : Out α :=
   if collinear p1 p2 p3 then .none
   else if d2 p1.x p1.y p2.x p2.y = 0 ∨ d2 p1.x p1.y p3.x p3.y = 0 ∨ d2 p2.x p2.y p3.x p3.y = 0 then .random
   else
-    let c12 := circle2 p1 p2
-    let c23 := circle2 p2 p3
-    let c13 := circle2 p1 p3
-    let cands := (if inside c12 p3 then [c12] else []) ++ (if inside c23 p1 then [c23] else [])
-      ++ (if inside c13 p2 then [c13] else [])
-    match cands with
+    match cands3 p1 p2 p3 with
     | c :: rest => .circ (argminR c (c :: rest))
     | [] => .circ (circum p1 p2 p3)
 
